@@ -158,10 +158,34 @@ def changed_fingerprints(prop_id: str, repo: str) -> List[str]:
 # --------------------------------------------------------------------------
 # Coq build
 
+_MEM_CAP = 24 * 1024 ** 3      # address-space cap per build process: a runaway coqc fails instead of exhausting the box
+
+
+def _limits():
+    import resource
+    os.setsid()
+    try:
+        resource.setrlimit(resource.RLIMIT_AS, (_MEM_CAP, _MEM_CAP))
+    except Exception:
+        pass
+
+
 def _run(cmd, cwd=None, timeout=1800, env=None, input=None):
-    p = subprocess.run(cmd, cwd=cwd, timeout=timeout, env=env, input=input,
-                       stdout=subprocess.PIPE, stderr=subprocess.STDOUT, text=True)
-    return p.returncode, p.stdout
+    """run a build tool in its own process group under a time and memory limit; on timeout the whole group (make AND the
+    coqc processes it started) is killed and the call reports failure (rc 124) instead of leaving a coqc holding the lock"""
+    import signal
+    p = subprocess.Popen(cmd, cwd=cwd, env=env, stdin=subprocess.PIPE if input is not None else None,
+                         stdout=subprocess.PIPE, stderr=subprocess.STDOUT, text=True, preexec_fn=_limits)
+    try:
+        out, _ = p.communicate(input=input, timeout=timeout)
+        return p.returncode, out
+    except subprocess.TimeoutExpired:
+        try:
+            os.killpg(p.pid, signal.SIGKILL)
+        except Exception:
+            p.kill()
+        out, _ = p.communicate()
+        return 124, (out or "") + "\nTIMEOUT after %ss: %s" % (timeout, " ".join(cmd[:3]))
 
 
 class _Lock:
